@@ -14,10 +14,13 @@
 // cond.Wait, batching loop signalled, Close returned), which is the coarse schedule
 // EventWriter.coarse_sched of the Coq model.  Observed per operation: result of the call
 // (returned / panicked / blocked), batches that reached the write function (producer, tag, event
-// type, message key — decoded from the real protobuf payload), whether Close returned.
+// type, message key — decoded from the real protobuf payload), whether Close returned, and — when
+// the gate is released — the very same []kafka.Message decoded AGAIN at the return of the write
+// function (what the broker really saw; a batch must not change while it is being written).
 //
-// A second kind of case races Close against the writer without forcing anything (the model says
-// Close can hang there: lost wake-up) and reports how many trials hung / lost events.
+// A second kind of case races Close against the writer without forcing anything (before the
+// FifoBuffer `released` flag Close could hang there: lost wake-up) and reports how many trials
+// hung / lost events; any hang is a violation (monitor code 10).
 package main
 
 import (
@@ -82,8 +85,9 @@ type omsg struct {
 
 type opObs struct {
 	Res     int      `json:"res"` // 0 returned, 1 nothing to do, 2 panicked, 3 blocked, 9 did not settle
-	Batches [][]omsg `json:"batches,omitempty"`
+	Batches [][]omsg `json:"batches,omitempty"`          // content when the write function was entered
 	Closed  bool     `json:"close_returned,omitempty"`
+	Left    [][]omsg `json:"at_return,omitempty"` // same slice, content when the write function returned
 }
 
 // ---------- events ----------
@@ -232,6 +236,7 @@ type runner struct {
 	w        *event.KafkaWriter
 	gate     chan struct{}
 	arrived  chan []omsg
+	left     chan []omsg
 	prods    map[int]*producer
 	inGate   bool
 	expected int // accepted so far: returned normally and one of the nine event types
@@ -242,17 +247,30 @@ type runner struct {
 }
 
 func newRunner() *runner {
-	r := &runner{gate: make(chan struct{}), arrived: make(chan []omsg, 64), prods: map[int]*producer{},
-		closeRet: make(chan struct{})}
+	r := &runner{gate: make(chan struct{}), arrived: make(chan []omsg, 64), left: make(chan []omsg, 64),
+		prods: map[int]*producer{}, closeRet: make(chan struct{})}
 	r.w = event.VerifC19NewWriter("verif-c19", func(ms []kafka.Message) {
+		// entry: decode, and keep private copies of the raw bytes
 		b := make([]omsg, len(ms))
+		raw := make([][2]string, len(ms))
 		for i, m := range ms {
 			b[i] = decode(m)
+			raw[i] = [2]string{string(m.Key), string(m.Value)}
 		}
 		r.arrived <- b
 		if atomic.LoadInt32(&r.open) == 0 {
-			<-r.gate
+			<-r.gate // broker latency
 		}
+		// return: the same slice once more — this is what a broker write that took that long sent
+		e := make([]omsg, len(ms))
+		for i, m := range ms {
+			e[i] = decode(m)
+			if i < len(raw) && (string(m.Key) != raw[i][0] || string(m.Value) != raw[i][1]) &&
+				e[i].P == b[i].P && e[i].T == b[i].T && e[i].K == b[i].K {
+				e[i].K, e[i].Note = 98, "bytes changed while in flight"
+			}
+		}
+		r.left <- e
 	})
 	return r
 }
@@ -417,6 +435,13 @@ func (r *runner) do(op opIn) opObs {
 		}
 		r.inGate = false
 		r.gate <- struct{}{}
+		select {
+		case e := <-r.left:
+			o.Left = append(o.Left, e)
+		case <-time.After(settleTimeout):
+			o.Res = 9
+			return o
+		}
 	case "close":
 		if r.closeCalled {
 			o.Res = 1
@@ -437,6 +462,10 @@ func (r *runner) abandon() {
 	atomic.StoreInt32(&r.open, 1)
 	go func() {
 		for range r.arrived {
+		}
+	}()
+	go func() {
+		for range r.left {
 		}
 	}()
 	close(r.gate)
@@ -560,7 +589,15 @@ func runSched(in caseIn) (gen.Case, bool) {
 			}
 			bs[j] = gen.List(ms)
 		}
-		obsTerms = append(obsTerms, fmt.Sprintf("(%d, %s, %s)", o.Res, gen.List(bs), gen.Bool(o.Closed)))
+		ls := make([]string, len(o.Left))
+		for j, b := range o.Left {
+			ms := make([]string, len(b))
+			for k, m := range b {
+				ms[k] = omsgTerm(m)
+			}
+			ls[j] = gen.List(ms)
+		}
+		obsTerms = append(obsTerms, fmt.Sprintf("(%d, %s, %s, %s)", o.Res, gen.List(bs), gen.Bool(o.Closed), gen.List(ls)))
 	}
 	return gen.Case{
 		Term:  fmt.Sprintf("CSched %s %s", gen.List(opTerms), gen.List(obsTerms)),
@@ -901,15 +938,25 @@ func main() {
 		}
 		// small cases first: the first failing case the driver reports is then a small one
 		sort.SliceStable(gens, func(a, b int) bool { return sizeOf(gens[a]) < sizeOf(gens[b]) })
-		inputs = append(inputs, gens...)
+		// the case files are contiguous slices of the case list: deal the sorted cases out so that
+		// every shard gets its share of the large ones (each shard still ascending in size)
+		k := o.Shards
+		if k < 1 {
+			k = 1
+		}
+		for sh := 0; sh < k; sh++ {
+			for i := sh; i < len(gens); i += k {
+				inputs = append(inputs, gens[i])
+			}
+		}
 		mult := 1
 		if o.Tier == "thorough" {
 			mult = 10
 		}
 		inputs = append(inputs,
 			caseIn{Race: &raceIn{Mode: 3, Trials: 150 * mult, Seed: rRace.U64()}},
-			caseIn{Race: &raceIn{Mode: 2, Trials: 1500 * mult, Seed: rRace.U64()}},
-			caseIn{Race: &raceIn{Mode: 1, Trials: 1500 * mult, Seed: rRace.U64()}})
+			caseIn{Race: &raceIn{Mode: 2, Trials: 2500 * mult, Seed: rRace.U64()}},
+			caseIn{Race: &raceIn{Mode: 1, Trials: 4000 * mult, Seed: rRace.U64()}})
 	}
 
 	var cases []gen.Case
